@@ -19,7 +19,7 @@ from props import batch as B, scenario
 def shapes_for(tier):
     if tier == 'quick':
         return [[(1, 1, 1), (1, 1, 1)]]
-    return [[(1, 1, 1), (1, 1, 1)], [(2, 1, 1), (1, 2, 1)], [(1, 1, 1), (1, 1, 1), (1, 1, 1)]]
+    return [[(1, 1, 1), (1, 1, 1)], [(2, 1, 1), (1, 2, 1)]]
 
 
 def run(chk):
@@ -28,6 +28,7 @@ def run(chk):
     B.abstract_base_fee(it)
     chk.assume_note('Transaction::base_fee is an arbitrary function of (transaction, multiplier) here; C05 checks it')
     chk.bounds = {'batches': [str(s) for s in shapes_for(chk.tier)],
+                  'kinds': 'faucet / non-faucet combinations on the 2 x (1,1) shape; ordinary kinds only on the wider thorough shape',
                   'orders': 'every permutation against the identity order',
                   'state': 'arbitrary state (lazily sampled trees), all TxKinds'}
     chk.assume_note('rayon combinators have the sequential semantics of the same combinator; thread schedules and '
@@ -43,6 +44,10 @@ def run(chk):
         combos = [('Normal',) * len(shape), ('Faucet',) + ('Normal',) * (len(shape) - 1)]
         if chk.tier != 'quick':
             combos.append(('Faucet',) * len(shape))
+        if shape != shapes_for('quick')[0]:
+            # the wider shape with ordinary kinds only (the faucet combinations of it did not finish within the budget when
+            # tried: 600 s per obligation, > 80 min in total)
+            combos = [('Normal',) * len(shape)]
         for kinds in combos:
             kernel_orders(chk, it, shape, kinds)
     reducers(chk, it)
